@@ -171,14 +171,18 @@ def grid_points(axes):
         yield dict(zip(names, combo))
 
 
-def sorted_union(values):
+def plain_union(values):
     vals = []
     seen = set()
     for v in values:
         if v not in seen:
             seen.add(v)
             vals.append(v)
-    return sorted(vals)
+    return vals
+
+
+def sorted_union(values):
+    return sorted(plain_union(values))
 
 
 # --------------------------------------------------------------------------- #
